@@ -213,6 +213,34 @@ def run(r):
                              "server_fixtures": got, "library_fixtures": want, "seed": r.seed}, "srv_%d" % nsrv)
                 break
         tagc["server_roots"] += nsrv
+        # "plus the modules those files pull in": a selected file imports a module of its own directory that is not a
+        # pytest-named file (also modules named like standard-library modules, legal names for local modules); the
+        # scan must index that module and its fixtures (the closure itself is C14's subject; here: one step)
+        pulled_cases, pulled_meta = [], []
+        for k in range(6 if quick else 30):
+            proot = os.path.join(base, "pulled_%d" % k, "proj")
+            mods = rnd.sample(["helpers_a", "types", "http", "logging", "shared_fx", "json", "kinds"], 3)
+            sub = rnd.choice(["tests", "pkg", "src/app"])
+            os.makedirs(os.path.join(proot, sub), exist_ok=True)
+            imps = []
+            for m in mods:
+                open(os.path.join(proot, sub, m + ".py"), "w").write("import pytest\n\n@pytest.fixture\ndef from_%s():\n    return 1\n" % m)
+                imps.append(rnd.choice(["from .%s import *", "from .%s import from_%s"]).replace("%s", m))
+            open(os.path.join(proot, sub, "conftest.py"), "w").write("import pytest\n" + "\n".join(imps[:2]) + "\n")
+            open(os.path.join(proot, sub, "test_pull.py"), "w").write(imps[2] + "\n\ndef test_p(%s):\n    pass\n" % ", ".join("from_" + m for m in mods))
+            pulled_cases.append({"id": k, "ops": [{"op": "scan", "path": proot}, {"op": "file_cache_keys"}, {"op": "dump"}]})
+            pulled_meta.append((proot, sub, mods))
+        pobs, _ = core.run_h1(h1, pulled_cases, "C13_pulled")
+        for k, (proot, sub, mods) in enumerate(pulled_meta):
+            keys = set(os.path.realpath(x) for x in pobs[k]["obs"][1])
+            names = set(nm for nm, ds in pobs[k]["obs"][2]["definitions"])
+            missing = [m for m in mods if os.path.realpath(os.path.join(proot, sub, m + ".py")) not in keys or ("from_" + m) not in names]
+            tagc["pulled_in_modules"] += len(mods)
+            if missing:
+                r.violation({"property": PID, "part": "pulled-in modules", "why": "a module that a selected file of the workspace imports from its own directory "
+                             "was not indexed by the scan", "directory": sub, "imported_modules": mods, "not_indexed": missing,
+                             "indexed_files": sorted(x[len(os.path.realpath(proot)) + 1:] for x in keys), "seed": r.seed}, "pulled_%d" % k)
+                break
         prop_fail = [x for x in results if x[3] & 2]
         corr_fail = [x for x in results if (x[3] & 1) and not (x[3] & 2)]
         searched = 0
